@@ -1,6 +1,6 @@
 (** C09 — pacing: debt-driven calls pay their debt; sleep is honoured (over exact rationals). *)
 From Coq Require Import QArith.
-From GA Require Import Model.Spec Proofs.Inv Proofs.MetricsLemmas Proofs.Pacing Proofs.Protocol.
+From GA Require Import Model.Spec Proofs.Inv Proofs.MetricsLemmas Proofs.Pacing Proofs.Protocol Proofs.MInv Proofs.Credit Proofs.CreditWorld.
 
 (** collect_debt that completes returns with zero allocation debt *)
 Theorem C09_collect_zero :
@@ -62,6 +62,45 @@ Theorem C09_stw_no_credit :
 Proof. exact stw_credits_zero. Qed.
 Print Assumptions C09_stw_no_credit.
 
-(** PARTIAL: the progress bound A(1-rho) <= rho H - d0 (cycles complete; heap within H/(1-rho))
-    needs the per-object ghost work accounting (invariant M of DESIGN 2.5) and is not yet proved;
-    it is checked on the implementation's numbers by the C09 oracle. f64 rounding is modelled. *)
+(** ** Progress.  The counting invariant [CInv] (Proofs/Credit*.v) holds in every reachable world: while
+    marking, [marked] is exactly the number of non-white objects and [traced] at most the number of
+    black ones; while sweeping, every kept object accounts for (mark, trace, keep) or (mark, drop,
+    keep) and every released one for (drop, free); asleep, all work counters are zero. *)
+Theorem C09_counting_invariant :
+  forall ops a ar, get_arena (run world_init ops) a = Some ar -> CInv (actx ar).
+Proof. exact wcinv_reachable. Qed.
+Print Assumptions C09_counting_invariant.
+
+(** Hence, for pacing factors whose per-object work paths each sum to at most rho ([paths_ok]): the
+    credits of the running cycle never exceed rho x (number of objects the cycle has seen = live now +
+    released in this cycle), in every arena of every reachable world. *)
+Theorem C09_credit_bound :
+  forall ops a ar rho, get_arena (run world_init ops) a = Some ar -> paths_ok (pac (met (actx ar))) rho ->
+    (cycle_credits (met (actx ar)) <= rho * QofN (total (met (actx ar)) + freed (met (actx ar))))%Q.
+Proof. exact credit_bound_reachable. Qed.
+Print Assumptions C09_credit_bound.
+
+(** The progress bound in its general form (N1): a cycle that woke with [H] objects and debits [d0], in
+    which [A] allocations were made since (so it has seen H + A objects and its debits are d0 + A), whose
+    debt is paid although it is unfinished -- which is how a debt-driven call returns without finishing,
+    [C09_cycle_debt_contract] -- satisfies A (1 - rho) <= rho H - d0.  For a cycle woken by debt
+    (d0 > 0) with rho < 1 this is the documented "fewer than rho H / (1 - rho) allocations", so cycles
+    always complete and the heap stays within H / (1 - rho). *)
+Theorem C09_progress_bound :
+  forall c rho (H A d0 : Q),
+    Inv None c -> MInv c -> CInv c -> paths_ok (pac (met c)) rho ->
+    debt_pos (met c) = false -> total (met c) <> 0%N ->
+    (QofN (total (met c) + freed (met c)) == H + A)%Q -> (cycle_debits (met c) == d0 + A)%Q ->
+    (A * (1 - rho) <= rho * H - d0)%Q.
+Proof. exact progress_bound. Qed.
+Print Assumptions C09_progress_bound.
+
+(** non-vacuity: the default pacing satisfies the path condition with rho = 0.55 *)
+Example C09_default_pacing_paths : paths_ok pacing_default (55#100).
+Proof. unfold paths_ok, pacing_default. cbn. repeat split; unfold Qle; cbn; lia. Qed.
+
+(** What stays outside: f64 rounding (the lock-step run compares decisions, and values on dyadic
+    pacing); the bookkeeping identities "objects seen = H + A" and "debits = d0 + A" of a cycle are
+    hypotheses of [C09_progress_bound] (they follow from total + freed - allocated and
+    debits - allocated being constant within a cycle; the credit-bound oracle evaluates them on the
+    implementation's counters). *)
